@@ -140,6 +140,16 @@ FILES: list[str] = [
     f"{P}/tpl2/{U}.html",
 ]
 
+# symbolic links inside the search directories whose targets lie outside them
+SYMLINKS = {
+    "base/root1/lnk.html": "../secret.txt",
+    "base/root1/lnkdir": "../../elsewhere",
+    f"{P}/tpl1/lnk.liquid": "../secret.txt",
+    f"{P}/tpl1/lnkdir": "../../../elsewhere",
+}
+SYMLINK_NAMES = ["lnk.html", "lnk", "lnkdir/x.html", "lnkdir/x", "lnk.liquid", "lnkdir/x.liquid", "lnkdir/secret.txt",
+                 "a/../lnk.html"]
+
 ALL_FILES = frozenset(FILES)
 ALL_DIRS = frozenset(
     "/".join(f.split("/")[:i]) for f in FILES for i in range(1, len(f.split("/")))
@@ -169,6 +179,9 @@ class _Sandbox:
                 os.makedirs(os.path.dirname(path), exist_ok=True)
                 with open(path, "w", encoding="utf-8") as fd:
                     fd.write(content_of(rel))
+            # links planted inside the roots that lead out of them (only SYMLINK_NAMES reach them)
+            for rel, target in SYMLINKS.items():
+                os.symlink(target, os.path.join(self.dir, rel))
             # read-only for the cases
             for dirpath, _dirnames, filenames in os.walk(self.dir):
                 for fn in filenames:
@@ -698,6 +711,10 @@ class C13(Prop):
         for name in fixed:
             for cfg in ENUM_CONFIGS:
                 yield self._case(name, cfg)
+        if "symlinks" not in disabled:
+            for name in SYMLINK_NAMES:
+                for cfg in ENUM_CONFIGS:
+                    yield self._case(name, cfg)
         # histories across loader objects: a neighbour with other search paths loads the name first
         for name in control_names():
             for kind in KINDS:
@@ -841,6 +858,11 @@ class C13(Prop):
                     == os.path.realpath(os.path.join(tdir, r))
                     for r in roots
                 )
+                if not inside and segs[0].startswith("lnk"):
+                    fails.append(("escape", f"symlink-followed:{kind_name}:{access}",
+                                  f"{where}: served <T>/{rel}, outside the search directories, through a symbolic "
+                                  "link planted inside them"))
+                    continue
                 if not inside:
                     fails.append(("escape", f"escape:{kind_name}:{cls}:{access}",
                                   f"{where}: served <T>/{rel}, outside the search directories"))
